@@ -25,6 +25,24 @@ func (x *Exec) indexAssign(l *ast.IndexExpr, v Val, st *State) {
 		}
 		x.assignTo(l.X, nb, st, false)
 		return
+	case VRefs:
+		// slices of references are values in this model (no aliasing of backing arrays): the store
+		// yields a new slice value that is written back to where the slice came from
+		var rt Term
+		switch rv := v.(type) {
+		case VRef:
+			rt = rv.T
+		case VNil:
+			rt = "0"
+		default:
+			unsupp(l.Pos(), x.fx.prog.fset, "assignment of %T into a slice of references", v)
+		}
+		i := e.intOf(e.ev(l.Index), l.Index)
+		e.safety("index", "index", l.Pos(), sAnd(sLe("0", i), sLt(i, b.N)), "index in range of "+exprString(l.X))
+		x.fx.trusted["slices of strings and of references are values in the model: a store s[i] = v or copy(dst, src) is seen only through the variable or field it is written back to, never through another slice sharing the backing array, and not by the caller (assumed: no observed aliasing)"] = true
+		nb := VRefs{Arr: x.fx.name(sortArr, "ra", fmt.Sprintf("(store %s %s %s)", b.Arr, i, rt)), N: b.N, Elem: b.Elem}
+		x.assignTo(l.X, nb, st, false)
+		return
 	case VHeapMap:
 		x.heapMapStore(l, b, v, st)
 		return
@@ -163,4 +181,21 @@ func (x *Exec) rangeStrMap(s *ast.RangeStmt, st *State, m VStrMap, lc *LoopContr
 		}
 	}
 	return x.loop(ls, st)
+}
+
+// copyRefs models the statement copy(dst, src) on slices of references (values in this model): the
+// first min(len(dst), len(src)) elements of dst become those of src, the others stay.
+func (x *Exec) copyRefs(call *ast.CallExpr, st *State) {
+	e := x.ev(st)
+	d, ok1 := e.ev(call.Args[0]).(VRefs)
+	sv, ok2 := e.ev(call.Args[1]).(VRefs)
+	if !ok1 || !ok2 {
+		unsupp(call.Pos(), x.fx.prog.fset, "copy is modelled for slices of references only")
+	}
+	fx := x.fx
+	x.fx.trusted["slices of strings and of references are values in the model: a store s[i] = v or copy(dst, src) is seen only through the variable or field it is written back to, never through another slice sharing the backing array, and not by the caller (assumed: no observed aliasing)"] = true
+	m := fx.name(sortInt, "cpn", fmt.Sprintf("(ite (<= %s %s) %s %s)", d.N, sv.N, d.N, sv.N))
+	arr := fx.declare(sortArr, "cp_refs")
+	fx.emit(fmt.Sprintf("(assert (forall ((k Int)) (! (= (select %s k) (ite (and (<= 0 k) (< k %s)) (select %s k) (select %s k))) :pattern ((select %s k)))))", arr, m, sv.Arr, d.Arr, arr))
+	x.assignTo(call.Args[0], VRefs{Arr: arr, N: d.N, Elem: d.Elem}, st, false)
 }
